@@ -256,7 +256,7 @@ def keyed_safe_pattern(rng, a, b):
 
 
 def run(ctx):
-    n = ctx.budget(3000, 50000)
+    n = ctx.budget(6000, 60000)
     depth = ctx.budget(4, 5)
     _, _, uc = cc.lib()
     # ---- xpath_match: B and spec
